@@ -145,7 +145,7 @@ func buildArtefacts() *artefacts {
 	if out, err := run(scratch, "go", "build", "-o", a.Real, "."); err != nil {
 		die(2, "the tree under test does not build: %v\n%s", err, out)
 	}
-	for _, pkg := range []string{"simrt", "drv", "idlgen"} {
+	for _, pkg := range []string{"simrt", "drv", "idlgen", "c12model"} {
 		src := filepath.Join(verifDir, "sim", pkg)
 		if _, err := os.Stat(src); err != nil {
 			continue
